@@ -232,13 +232,22 @@ struct RunOut {
 }
 
 /// run the stream and return a steady-state segment of `n_seg` output frames
-fn run_tones<T: Smp>(cfg: &Cfg, tones: &[(f64, f64, f64)], n_seg: usize, skip_out: usize) -> Result<RunOut, String> {
+/// `resize`: Some(seed) = the chunk size is changed between calls (set_chunk_size, asynchronous types
+/// only) on a random schedule; the stream, and with it every figure measured on it, must not care
+fn run_tones<T: Smp>(cfg: &Cfg, tones: &[(f64, f64, f64)], n_seg: usize, skip_out: usize, resize: Option<u64>) -> Result<RunOut, String> {
     let mut run = Runner::<T>::fresh(cfg, Sig { seed: 0, kind: SigKind::Tones(tones.to_vec()) })?;
     run.check_alloc = false;
     let op = Op::Proc { path: Path::Exact, slack_in: 0, slack_out: 0, mask: None, empty_inactive: false };
     let mut out: Vec<f64> = Vec::with_capacity(skip_out + n_seg + 8192);
     let mut calls = 0;
+    let mut rs = resize.map(|s| crate::rng::Rng::derive(&[s, 0x5153]));
     while out.len() < skip_out + n_seg && calls < 4_000_000 {
+        if let Some(r) = rs.as_mut() {
+            if r.chance(0.3) {
+                let n = r.logi((cfg.chunk / 16).max(1), cfg.chunk);
+                run.step(&Op::SetChunk(n));
+            }
+        }
         let so = run.step(&op);
         calls += 1;
         match so.res {
@@ -327,7 +336,9 @@ impl Band {
         let skip_out = delay + (2.0 * l_eff as f64 * r.max(1.0)) as usize + 2 * (cfg.chunk as f64 * r.max(1.0)) as usize + 64;
         let k_f32 = if cfg.kind.is_sinc() { 16.0 + cfg.flen() as f64 / 2.0 } else { 64.0 + 16.0 * ((2 * l_eff.max(cfg.fft_sizes().1)) as f64).log2() };
         let floor = if T::IS32 { k_f32 * (f32::EPSILON as f64) } else { 1e-13 };
-        let mut desc = J::obj().with("sample", J::s(T::NAME)).with("cfg", cfg.json()).with("segment", J::u(n_seg)).with("skip", J::u(skip_out));
+        // 15 % of the sinc cases change the chunk size between calls on a random schedule
+        let resize = if cfg.kind.is_sinc() && rng.chance(0.15) { Some(rng.next()) } else { None };
+        let mut desc = J::obj().with("sample", J::s(T::NAME)).with("cfg", cfg.json()).with("segment", J::u(n_seg)).with("skip", J::u(skip_out)).with("chunk_size_schedule_seed", resize.map(|v| J::Int(v as i128)).unwrap_or(J::Null));
         let mut cr = CaseResult::default();
 
         if !want_c02 {
@@ -360,7 +371,7 @@ impl Band {
             if ctx.describe {
                 return cr;
             }
-            let ro = match run_tones::<T>(&cfg, &tones, n_seg, skip_out) {
+            let ro = match run_tones::<T>(&cfg, &tones, n_seg, skip_out, resize) {
                 Ok(x) => x,
                 Err(e) => {
                     cr.inconclusive = Some(e);
@@ -471,7 +482,7 @@ impl Band {
         let mut power = 0.0;
         for q in 0..2 {
             let tones = vec![(f_abs, amp, ph0 + q as f64 * PI / 2.0)];
-            let ro = match run_tones::<T>(&cfg, &tones, n_seg, skip_out) {
+            let ro = match run_tones::<T>(&cfg, &tones, n_seg, skip_out, resize) {
                 Ok(x) => x,
                 Err(e) => {
                     cr.inconclusive = Some(e);
